@@ -12,6 +12,8 @@ BATCH = 250
 # custom type names that begin like a container or primitive the tool recognises by string prefix
 AWKWARD_NAMES = ["Options", "OptionalFeature", "Vec3", "Vector", "HashSetStats", "HashMapper", "BTreeMapView", "ResultSet", "Results", "Stringy",
                  "Boolean", "U8", "I32Wrapper", "Record", "Tuple", "T", "Str", "Channel2",
+                 # names TypeScript's own library uses (a project type shadows them inside its module)
+                 "Date", "Map", "Set", "Error", "Event", "Promise", "Array", "Object", "Number", "Partial", "Symbol",
                  # multi-byte identifiers: every string operation of the tool on a type expression must respect character boundaries
                  "Größe", "データ", "Zoë"]
 SITES = ("param", "return", "field", "channel", "event")
